@@ -97,12 +97,12 @@ Qed.
 Lemma weibull_alg : forall alpha beta x, 0 < beta -> 0 < x ->
   alpha * Rpower beta (- alpha) * Rpower x (alpha - 1) = alpha * / x * Rpower (x / beta) alpha.
 Proof.
-  intros alpha beta x Hb Hx. unfold Rdiv. rewrite Rpower_mult_distr by (try apply Rinv_0_lt_compat; lra).
-  unfold Rminus. rewrite Rpower_plus, Rpower_Ropp, Rpower_1 by lra.
-  rewrite <- (Rpower_Ropp beta alpha).
-  replace (Rpower (/ beta) alpha) with (Rpower beta (- alpha)).
-  - field. lra.
-  - unfold Rpower. rewrite ln_Rinv by lra. f_equal. ring.
+  intros alpha beta x Hb Hx. unfold Rpower, Rdiv.
+  rewrite ln_mult, ln_Rinv by (try apply Rinv_0_lt_compat; lra).
+  replace ((alpha - 1) * ln x) with (alpha * ln x + - ln x) by ring.
+  rewrite exp_plus, exp_Ropp, exp_ln by lra.
+  replace (alpha * (ln x + - ln beta)) with (- alpha * ln beta + alpha * ln x) by ring.
+  rewrite exp_plus. field. lra.
 Qed.
 
 Theorem weibull_normalised : forall alpha beta, 0 < alpha -> 0 < beta ->
@@ -189,21 +189,15 @@ Theorem normal_cdf_derivative : forall mu sigma x, 0 < sigma ->
 Proof.
   intros mu sigma x Hs. rewrite pdfv_normal by assumption. unfold Phi.
   pose proof (sqrt_lt_R0 2 ltac:(lra)) as H2. pose proof (sqrt_lt_R0 _ PI_RGT_0) as Hpi.
-  evar (dv : R).
-  assert (D : is_derive (fun x0 : R => / 2 + / 2 * erf ((x0 - mu) / (sqrt 2 * sigma))) x dv).
-  { apply @is_derive_plus; [apply @is_derive_const|].
-    apply is_derive_scal. apply (is_derive_comp erf (fun x0 => (x0 - mu) / (sqrt 2 * sigma))).
-    - apply erf_derive.
-    - auto_derive; [exact I|reflexivity]. }
-  unfold dv in D. clear dv.
-  eapply is_derive_ext_loc; [|exact D] || idtac.
-  match goal with D : is_derive _ _ ?v |- is_derive _ _ ?w => replace w with v; [exact D|] end.
-  unfold plus, zero, scal, mult; simpl. unfold mult; simpl.
-  rewrite sqrt_mult by (pose proof PI_RGT_0; lra).
-  replace ((x - mu) / (sqrt 2 * sigma) * ((x - mu) / (sqrt 2 * sigma)))
-    with (/ 2 * ((x - mu) / sigma * ((x - mu) / sigma))).
-  - field. repeat split; lra.
-  - replace (/ 2) with (/ (sqrt 2 * sqrt 2)) by (rewrite sqrt_sqrt by lra; reflexivity). field. split; lra.
+  auto_derive.
+  - eexists. apply erf_derive.
+  - rewrite (is_derive_unique (fun x0 : R => erf x0) _ _ (erf_derive ((x + - mu) * / (sqrt 2 * sigma)))).
+    rewrite sqrt_mult by (pose proof PI_RGT_0; lra).
+    replace ((x + - mu) * / (sqrt 2 * sigma) * ((x + - mu) * / (sqrt 2 * sigma)))
+      with (/ 2 * ((x - mu) / sigma * ((x - mu) / sigma))).
+    + replace (- (/ 2 * ((x - mu) / sigma * ((x - mu) / sigma)))) with (- / 2 * ((x - mu) / sigma * ((x - mu) / sigma))) by ring.
+      field. repeat split; lra.
+    + replace (/ 2) with (/ (sqrt 2 * sqrt 2)) by (rewrite sqrt_sqrt by lra; reflexivity). field. split; lra.
 Qed.
 
 Theorem normal_cdf_monotone_and_range : forall mu sigma, 0 < sigma ->
